@@ -1,3 +1,4 @@
+import BumpVerif.Proofs.VecNth
 import BumpVerif.Proofs.VecOwn
 import BumpVerif.Proofs.VecFilter
 import BumpVerif.Proofs.VecDrain
@@ -209,3 +210,7 @@ end Bump.V.C16
 #print axioms Bump.V.C16.C16_splice_contents
 #print axioms Bump.V.C16.C16_vec_macro_n
 #print axioms Bump.V.C16.C16_splice_regression
+-- `into_iter().nth(n)` (core's default `Iterator::nth` on the owning iterator), Proofs/VecNth.lean
+#print axioms Bump.V.intoIterNthOp_spec
+#print axioms Bump.V.dropEach_past
+#print axioms Bump.V.dropEach_panicked
